@@ -124,10 +124,88 @@ META = {
 }
 
 
+CH_TEMPLATE = '''"""generated by checks/c10.py: CrossHair contracts for the real scans on symbolic integers"""
+import os, sys
+from typing import List
+sys.path.insert(0, os.environ.get("VERIF_REPO_SRC") or "/repo/src")
+from traffic_weaver.sorted_array_utils import (
+    find_closest_lower_equal_element_indices_to_values as _lower,
+    find_closest_higher_equal_element_indices_to_values as _higher,
+    find_closest_lower_or_higher_element_indices_to_values as _closest,
+)
+'''
+
+
+def crosshair_second_engine(tier):
+    """Second engine on the one module CrossHair can execute: the same definitions as PEP-316 contracts over symbolic
+    integers. 'Confirmed over all paths' is the only passing verdict; a refutation is replayed through the Scan family."""
+    import os
+    import re
+    import subprocess
+    import time
+    from symx.runner import VERIF, replay_concrete
+    shapes = [(3, 2)] if tier == "quick" else [(3, 2), (4, 2), (4, 3), (5, 2)]
+    src = [CH_TEMPLATE]
+    for nx, nq in shapes:
+        xs = ", ".join("x%d" % i for i in range(nx))
+        qs = ", ".join("q%d" % i for i in range(nq))
+        args = ", ".join("%s: int" % v for v in (xs + ", " + qs).split(", "))
+        pre = " < ".join("x%d" % i for i in range(nx)) + (" and " + " <= ".join("q%d" % i for i in range(nq)) if nq > 1 else "")
+        X = "[%s]" % xs
+        Q = "[%s]" % qs
+        last = nx - 1
+        posts = {
+            "lower": "all((q < x0 and i == 0) or (%s[i] <= q and (i == %d or q < %s[i + 1])) for q, i in zip(%s, __return__))" % (X, last, X, Q),
+            "higher": "all((q > x%d and i == %d) or (%s[i] >= q and (i == 0 or %s[i - 1] < q)) for q, i in zip(%s, __return__))" % (last, last, X, X, Q),
+            "closest": "all(all((abs(%s[i] - q) < abs(%s[k] - q)) if k < i else (abs(%s[i] - q) <= abs(%s[k] - q)) for k in range(%d)) "
+                       "for q, i in zip(%s, __return__))" % (X, X, X, X, nx, Q),
+        }
+        calls = {"lower": "_lower(%s, %s, True)" % (X, Q), "higher": "_higher(%s, %s, True)" % (X, Q), "closest": "_closest(%s, %s)" % (X, Q)}
+        for k in ("lower", "higher", "closest"):
+            src.append("\n\ndef %s_%d_%d(%s) -> List[int]:\n    \"\"\"\n    pre: %s\n    post: %s\n    \"\"\"\n    return [int(v) for v in %s]\n"
+                       % (k, nx, nq, args, pre, posts[k], calls[k]))
+    d = os.path.join(VERIF, ".tmp")
+    os.makedirs(d, exist_ok=True)
+    path = os.path.join(d, "c10_crosshair_contracts.py")
+    open(path, "w").write("".join(src))
+    t0 = time.time()
+    exe = os.path.join(os.path.dirname(sys.executable), "crosshair")
+    try:
+        p = subprocess.run([exe, "check", "--report_all", "--per_condition_timeout", "60" if tier == "quick" else "180", path],
+                           capture_output=True, text=True, timeout=1200)
+        out = p.stdout + p.stderr
+    except Exception as e:  # noqa: BLE001
+        return {"engine": "crosshair-tool", "ran": False, "note": "could not run: %s" % e}, []
+    confirmed = len(re.findall(r"Confirmed over all paths", out))
+    refuted = re.findall(r"error: (.*)", out)
+    other = [l for l in out.splitlines() if ("Not confirmed" in l or "Unable to meet precondition" in l)]
+    res = {"engine": "crosshair-tool 0.0.110 (symbolic execution of Python with z3), integers", "ran": True,
+           "contracts": 3 * len(shapes), "shapes(len x, len lookup)": shapes, "confirmed_over_all_paths": confirmed,
+           "refuted": refuted[:5], "inconclusive": other[:5], "wall_s": round(time.time() - t0, 1)}
+    violations = []
+    fam = Scan()
+    for msg in refuted:
+        m = re.search(r"calling (\w+?)_(\d+)_(\d+)\(([^)]*)\)", msg)
+        if not m:
+            continue
+        strat, nx, nq = m.group(1), int(m.group(2)), int(m.group(3))
+        vals = [int(v.split("=")[-1].strip()) for v in m.group(4).split(",")]
+        model = {("x%d" % i): vals[i] for i in range(nx)}
+        model.update({("q%d" % i): vals[nx + i] for i in range(nq)})
+        cfg = {"strategy": strat, "nx": nx, "nq": nq, "fill": True, "via": "direct", "container": "list"}
+        failed, _ = replay_concrete(fam, cfg, model)
+        if failed:
+            violations.append({"family": "crosshair-second-engine", "config": cfg, "claim": strat, "model": {k: str(v) for k, v in model.items()},
+                               "info": {"crosshair": msg[:200]}, "replay_failed_claims": failed,
+                               "module": "checks.c10", "family_class": "Scan", "property": "C10"})
+    return res, violations
+
+
 def main():
     ap = argparse.ArgumentParser()
     ap.add_argument("--tier", default="quick")
     a = ap.parse_args()
+    META["second_engine"] = crosshair_second_engine
     sys.exit(run_check("C10", "nearest-sample search", [Scan(), BadStrategy()], a.tier, META))
 
 
